@@ -265,6 +265,12 @@ func do(h http.Handler, rq Req) (resp Resp) {
 	for _, kv := range rq.Header {
 		r.Header.Set(kv[0], kv[1])
 	}
+	// as net/http does for a real request: ContentLength mirrors the header
+	if cl := r.Header.Get("Content-Length"); cl != "" {
+		if n, err := strconv.ParseInt(cl, 10, 64); err == nil && n >= 0 {
+			r.ContentLength = n
+		}
+	}
 	w := httptest.NewRecorder()
 	func() {
 		defer func() {
